@@ -39,7 +39,7 @@ var QuickTimeMetaPercent = 5
 // so the nested probability is kept low in order not to lose most of the deep structures to this one reason.
 var (
 	LargeSizePercent      = 1
-	LargeSizeNestedPer10k = 3
+	LargeSizeNestedPer10k = 60
 )
 
 // ---------------------------------------------------------------------------------------------
